@@ -26,9 +26,9 @@ def owned_case(rng, minor=None):
     minor = rng.choice([4, 5, 5]) if minor is None else minor
     used = set()
     base = gen_nb.gen_notebook(rng, minor, ncells=0)
-    n = rng.choice([2, 3, 4, 5, 6])
+    n = rng.choice([2, 3, 4, 5, 6, 6, 4, 17, 24, 36])     # also long notebooks where few cells are touched
     base['cells'] = [gen_nb.long_cell(rng, minor, used) for _ in range(n)]
-    owner = [rng.choice(['local', 'remote', 'none']) for _ in range(n)]
+    owner = [rng.choice(['local', 'remote', 'none'] if n < 10 else ['local', 'remote'] + ['none'] * 12) for _ in range(n)]
     if 'local' not in owner:
         owner[0] = 'local'
     if 'remote' not in owner:
@@ -225,7 +225,7 @@ def theorem_domain(ctx):
 
 KEYWISE_THEOREMS = ['Nbdime.C06_model_keywise', 'Nbdime.C06_model_different_keys', 'Nbdime.apply_keywise_obj', 'Nbdime.C09_model_keywise_all',
                     'Nbdime.C06_model_cells', 'Nbdime.C06_notebook_cells', 'Nbdime.apply_cells_only', 'Nbdime.C09_model_cells_choose',
-                    'Nbdime.C06_model_mixed', 'Nbdime.C06_notebook_mixed', 'Nbdime.apply_mixed_obj', 'Nbdime.mixed_two_stage', 'Nbdime.C06_model_mixed_all']
+                    'Nbdime.C06_model_mixed', 'Nbdime.C06_notebook_mixed', 'Nbdime.apply_mixed_obj', 'Nbdime.mixed_two_stage', 'Nbdime.C06_model_mixed_all', 'Nbdime.C05_model_mixed_symmetric']
 THEOREMS.extend(t for t in KEYWISE_THEOREMS if t not in THEOREMS)
 
 
@@ -331,10 +331,10 @@ def cells_edit_case(rng):
     minor = rng.choice([4, 5, 5])
     used = set()
     base = gen_nb.gen_notebook(rng, minor, ncells=0)
-    n = rng.choice([2, 3, 4, 5, 7])
+    n = rng.choice([2, 3, 4, 5, 7, 7, 16, 20, 33])     # also long notebooks with few edited cells
     base['cells'] = [gen_nb.long_cell(rng, minor, used) for _ in range(n)]
     l, r, e = copy.deepcopy(base), copy.deepcopy(base), copy.deepcopy(base)
-    owners = [rng.choice(['local', 'remote', 'none']) for _ in range(n)]
+    owners = [rng.choice(['local', 'remote', 'none'] if n < 10 else ['local', 'remote'] + ['none'] * 10) for _ in range(n)]
     owners[rng.randrange(n)] = 'local'
     acts = []
     for i, c in enumerate(base['cells']):
@@ -504,13 +504,19 @@ def mixed_domain(ctx):
         with mergelib.renderer('builtin'):
             dres, req = mergemodel.impl_decide(nb, ld, rd, S)
         cases.append((dres, data, e))
-        reqs += [req, dict(req, want='mixedwise', key='cells')]
+        reqs += [req, dict(req, want='mixedwise', key='cells'), dict(req, want='mixedwise', key='cells', local=req['remote'], remote=req['local'])]
     replies = vlib.Driver().run(reqs) if reqs else []
     mism = []
     for i, (dres, data, e) in enumerate(cases):
-        rep, cw = replies[2 * i], replies[2 * i + 1]
+        rep, cw, sw = replies[3 * i], replies[3 * i + 1], replies[3 * i + 2]
         ctx.cov['traces_validated_against_impl'] += 1
         inside = cw.get('ok') is True
+        if inside and sw.get('ok') is True and 'ok' in cw.get('merged', {}) and 'ok' in sw.get('merged', {}):
+            # C05_model_mixed_symmetric: both role assignments inside the domain -> the same merged document
+            ctx.count('theorem-domain:mixedwise, both role assignments')
+            ctx.cov['theorem_hypothesis_checks'] = ctx.cov.get('theorem_hypothesis_checks', 0) + 1
+            if canon(dec(cw['merged']['ok'])) != canon(dec(sw['merged']['ok'])):
+                raise vlib.Infra('driver contradicts C05_model_mixed_symmetric')
         ctx.count('theorem-domain:mixedwise' if inside else 'theorem-domain:mixedwise-outside (an edited cell was not aligned / numeric alias)')
         if not mergemodel.same(dres, rep):
             mism.append({'stream': 'merge-model', 'tag': 'mixed', 'difference': mergemodel.first_difference(dres, rep), 'case': data})
